@@ -78,7 +78,8 @@ def read(arg: dict) -> dict:
     from explorerscript.cli import decompile as D
     from explorerscript.cli import check_settings
     doc = arg["doc"]
-    D.counter.count = 0     # a fresh process
+    if hasattr(D, "counter"):       # before fix 5dd8dac the ops were numbered by a module-level counter: start like a fresh process
+        D.counter.count = 0
     try:
         check_settings(doc)
         infos, named, ops = D.read_routines(doc["routines"])
